@@ -567,7 +567,7 @@ type ghostStmt struct {
 	clause *Clause
 }
 
-var ghostRe = regexp.MustCompile(`^(entry|at return|after call|before call|at go|after store|after load|at backedge)\s*((?:[^:#]|::)*?)(?:#(\d+))?\s*(?:when\s+(.*?))?:\s(.*)$`)
+var ghostRe = regexp.MustCompile(`^(entry|at return|after call|before call|at go|after store|after load|after recv|at backedge)\s*((?:[^:#]|::)*?)(?:#(\d+))?\s*(?:when\s+(.*?))?:\s(.*)$`)
 
 func (vc *VC) parseGhostStmts() {
 	if vc.fc == nil {
@@ -684,6 +684,18 @@ func (vc *VC) runGhostLoad(st *State, p PtrV) {
 			continue
 		}
 		if g.callee == p.Path || strings.HasSuffix(p.Path, "."+g.callee) {
+			vc.execGhost(st, g)
+		}
+	}
+}
+
+// runGhostRecv: "after recv" anchors fire after every channel receive of the function itself (range over a channel, <-ch, select case).
+func (vc *VC) runGhostRecv(st *State) {
+	if st.fr == nil || st.fr.fn != vc.fn {
+		return
+	}
+	for _, g := range vc.ghostAnchors {
+		if g.anchor == "after recv" {
 			vc.execGhost(st, g)
 		}
 	}
